@@ -17,15 +17,32 @@ Proof.
 Qed.
 
 (* an unhandled type (in the independent sense of `unhandled`) reaches the fallback branch *)
+Lemma prelude_lookup_none br p : mem p (map fst br) = false -> prelude_lookup br p = None.
+Proof.
+  induction br as [|[t stops] br IH]; cbn; [reflexivity|].
+  intros H. apply orb_false_iff in H as [H1 H2]. rewrite H1. exact (IH H2).
+Qed.
+
+Lemma prelude_lookup_some br p b : prelude_lookup br p = Some b -> mem p (map fst br) = true.
+Proof.
+  induction br as [|[t stops] br IH]; cbn; [discriminate|].
+  destruct (p =? t); [reflexivity|]. intros H. cbn. exact (IH H).
+Qed.
+
+Lemma prelude_lookup_none_inv br p : prelude_lookup br p = None -> mem p (map fst br) = false.
+Proof.
+  induction br as [|[t stops] br IH]; cbn; [reflexivity|].
+  destruct (p =? t); [discriminate|]. intros H. cbn. exact (IH H).
+Qed.
+
 Lemma dispatch_unhandled st p sq :
   expected st = [] -> unhandled st p = true ->
   dispatch st p sq = fallback (send_blocked (rekey st)) p sq.
 Proof.
   intros He Hu. unfold unhandled, special in Hu.
   repeat (apply andb_true_iff in Hu; destruct Hu as [Hu ?]).
-  apply negb_true_iff in Hu. apply orb_false_iff in Hu as [Hu Hd]. apply orb_false_iff in Hu as [Hi Hdc].
-  apply negb_true_iff in H, H0, H1.
-  unfold dispatch. rewrite Hi, Hdc, Hd, He. unfold ladder. rewrite H1, H0, H. reflexivity.
+  apply negb_true_iff in Hu, H, H0, H1.
+  unfold dispatch. rewrite (prelude_lookup_none _ _ Hu), He. unfold ladder. rewrite H1, H0, H. reflexivity.
 Qed.
 
 (* the finite sweep: in every state, every unhandled type number 0..255 passes the reader's logging,
@@ -128,13 +145,12 @@ Proof.
       by apply unimpl_unhandled.
     pose proof (dispatch_unhandled (st_of (server_mode st) (authed st) (ah st) (srt st) (rekey st))
                   MSG_UNIMPLEMENTED sq eq_refl Hu) as Hd.
-    unfold dispatch in *. cbn [expected st_of rekey] in Hd. rewrite He.
-    change (MSG_UNIMPLEMENTED =? MSG_IGNORE) with false in *.
-    change (MSG_UNIMPLEMENTED =? MSG_DISCONNECT) with false in *.
-    change (MSG_UNIMPLEMENTED =? MSG_DEBUG) with false in *.
-    cbv iota in *.
+    assert (Hp : prelude_lookup prelude MSG_UNIMPLEMENTED = None) by (vm_compute; reflexivity).
+    assert (Hk : (KEX_LO <=? MSG_UNIMPLEMENTED) && (MSG_UNIMPLEMENTED <=? KEX_HI) = false)
+      by (vm_compute; reflexivity).
+    unfold dispatch in *. rewrite Hp in *. cbn [expected st_of rekey] in Hd. rewrite He.
     destruct (negb (mem MSG_UNIMPLEMENTED (e :: es))); [discriminate|].
-    change ((30 <=? MSG_UNIMPLEMENTED) && (MSG_UNIMPLEMENTED <=? 41)) with false. cbv iota.
+    rewrite Hk.
     assert (Hl : ladder st MSG_UNIMPLEMENTED sq =
                  ladder (st_of (server_mode st) (authed st) (ah st) (srt st) (rekey st)) MSG_UNIMPLEMENTED sq)
       by (destruct st; reflexivity).
@@ -147,9 +163,8 @@ Lemma handled_not_fallback st p sq rep :
 Proof.
   intros He Hu. unfold receive. destruct (reader_ok p); [|discriminate].
   unfold dispatch, ladder. rewrite He. unfold unhandled, special in Hu.
-  destruct (p =? MSG_IGNORE); [discriminate|].
-  destruct (p =? MSG_DISCONNECT); [discriminate|].
-  destruct (p =? MSG_DEBUG); [discriminate|].
+  destruct (prelude_lookup prelude p) as [[]|] eqn:El; try discriminate.
+  rewrite (prelude_lookup_none_inv _ _ El) in Hu.
   destruct (mem p (transport_table st)).
   - destruct (ensure_authed_blocks st p); discriminate.
   - destruct (mem p channel_handler_table); [discriminate|].
